@@ -212,8 +212,9 @@ pub fn hostile_text_frames(r: &mut Rng, fam: Fam, out: &mut Vec<Vec<u8>>) {
     });
     for &i in &spots {
         // a few hostile strings per spot
-        for _ in 0..3 {
-            let h = *r.pick(HOSTILE_TEXT);
+        let long = gen::long_invalid_filter(r);
+        for k in 0..4 {
+            let h: &[u8] = if k == 3 { &long } else { *r.pick(HOSTILE_TEXT) };
             let mut f: Frame = f0.clone();
             match f.segs[i].role.clone() {
                 Role::Str(_) | Role::ProtoName => f.segs[i].bytes = lp(h),
